@@ -581,4 +581,66 @@ theorem strOK_of_mem (pool : List Bytes) (hl : pool.length ≤ 32768) (s : Bytes
   obtain ⟨h1, h2⟩ := poolIndex_spec pool s h
   exact ⟨by omega, h1⟩
 
+
+/-! ## saving merged entries -/
+
+theorem buildImageFrom_nil (v : Nat) (es : List Entry) : buildImageFrom [] v es = buildImage v es := rfl
+
+theorem mapOpt_proj {α β γ : Type} {f : α → Option β} {p : β → γ} {q : α → γ}
+    (hpq : ∀ a b, f a = some b → p b = q a) :
+    ∀ (l : List α) (r : List β), mapOpt f l = some r → r.map p = l.map q := by
+  intro l
+  induction l with
+  | nil => intro r h; simp [mapOpt] at h; subst h; rfl
+  | cons a as ih =>
+    intro r h
+    simp only [mapOpt] at h
+    cases hfa : f a with
+    | none => simp [hfa] at h
+    | some b =>
+      simp only [hfa, Option.bind_some] at h
+      cases hr : mapOpt f as with
+      | none => simp [hr] at h
+      | some bs =>
+        simp only [hr, Option.bind_some, Option.some.injEq] at h
+        subst h
+        simp [hpq a b hfa, ih bs hr]
+
+/-- When no single pool can be reused (entries of two different parsed images, or none lazy),
+what is written is `buildImage` of one container entry per input entry — same CRC, summary and
+sound list, scene re-encoded against the fresh pool. -/
+theorem saveImage_fresh (version : Nat) (es : List MEntry) (b : Bytes)
+    (hm : (poolMode es none).1 = none) (h : saveImage version es = some b) :
+    ∃ entries : List Entry, b = buildImage version entries ∧
+      entries.map (fun e => (e.crc, e.durMs, e.lastMs, e.sounds)) =
+        es.map (fun e => (e.crc, e.durMs, e.lastMs, e.sounds)) := by
+  unfold saveImage at h
+  simp only [hm] at h
+  cases h1 : mapOpt (fun e => (entryStrs (poolMode es none).2 e).map fun st => (e, st)) es with
+  | none => simp [h1] at h
+  | some ws =>
+    simp only [h1, Option.bind_some] at h
+    have hws : ws.map (fun x => (x.1.crc, x.1.durMs, x.1.lastMs, x.1.sounds)) =
+        es.map (fun e => (e.crc, e.durMs, e.lastMs, e.sounds)) := by
+      refine mapOpt_proj ?_ es ws h1
+      intro a x hx
+      cases hs : entryStrs (poolMode es none).2 a with
+      | none => simp [hs] at hx
+      | some st => simp [hs] at hx; subst hx; rfl
+    cases h2 : mapOpt (fun x : MEntry × List Bytes =>
+        (entryRaw (poolMode es none).2 (poolIndex (ws.foldl (fun p x => addAll (addAll p x.1.sounds) x.2) [])) x.1).map
+          fun raw => ({ crc := x.1.crc, durMs := x.1.durMs, lastMs := x.1.lastMs, sounds := x.1.sounds,
+                        strs := x.2, raw := raw, comp := x.1.comp } : Entry)) ws with
+    | none => simp [h2] at h
+    | some entries =>
+      simp only [h2, Option.map_some, Option.some.injEq] at h
+      refine ⟨entries, by rw [← h, buildImageFrom_nil], ?_⟩
+      rw [← hws]
+      refine mapOpt_proj ?_ ws entries h2
+      intro x e hx
+      cases hr : entryRaw (poolMode es none).2
+          (poolIndex (ws.foldl (fun p x => addAll (addAll p x.1.sounds) x.2) [])) x.1 with
+      | none => simp [hr] at hx
+      | some raw => simp [hr] at hx; subst hx; rfl
+
 end C20.Bvcd
